@@ -993,6 +993,9 @@ func (broker *Broker) handleSendError(payload sts.Payload, nPartsReceived int) s
 	nErr := 0
 	var n int
 	var err error
+	// When the server's answer carried the number of parts it received (partial
+	// content), that is where the payload has to be split
+	n = nPartsReceived
 	for {
 		if broker.shouldStopNow() {
 			break
